@@ -303,4 +303,24 @@ def SigCache.add (s : SigCache) (victim : Nat) (sigHash sig pubKey : Bytes) : Si
     else s.validSigs
   { s with validSigs := (sigHash, ⟨sig, pubKey⟩) :: m.filter (fun e => e.1 != sigHash) }
 
+/-- one signature check request: eviction position, sigHash, signature, public key -/
+structure SigReq where
+  victim : Nat
+  sigHash : Bytes
+  sig : Bytes
+  pubKey : Bytes
+  deriving Repr
+
+/-- `baseSigVerifier.verifySig` / `taprootSigVerifier.verifySig` with a cache: a hit answers
+"valid" without verifying; a miss verifies (`V` = the real ECDSA/Schnorr check) and records success. -/
+def verifySig (V : Bytes → Bytes → Bytes → Bool) (c : SigCache) (r : SigReq) : Bool × SigCache :=
+  if c.exists r.sigHash r.sig r.pubKey then (true, c)
+  else if V r.sigHash r.sig r.pubKey then (true, c.add r.victim r.sigHash r.sig r.pubKey)
+  else (false, c)
+
+/-- a whole history of checks against one cache: each request with the answer it got -/
+def runVerify (V : Bytes → Bytes → Bytes → Bool) : SigCache → List SigReq → List (SigReq × Bool)
+  | _, [] => []
+  | c, r :: rs => (r, (verifySig V c r).1) :: runVerify V (verifySig V c r).2 rs
+
 end BV.C07.Model
